@@ -163,7 +163,15 @@ class Extension:
 def _gettext_alias(
     __context: Context, *args: t.Any, **kwargs: t.Any
 ) -> t.Any | Undefined:
-    return __context.call(__context.resolve("gettext"), *args, **kwargs)
+    gettext = __context.resolve("gettext")
+    environment = __context.environment
+
+    if environment.sandboxed:
+        # "gettext" can be rebound by the template, apply the same safety
+        # check as for a call compiled from the template.
+        return environment.call(__context, gettext, *args, **kwargs)  # type: ignore
+
+    return __context.call(gettext, *args, **kwargs)
 
 
 def _make_new_gettext(func: t.Callable[[str], str]) -> t.Callable[..., str]:
